@@ -71,6 +71,7 @@ type batchScn struct {
 	cDetour       bool       // before every later run the concurrency is first set to another value, then to the run's
 	stopByRun     []bool     // stop-on-error mode of each run (builder method before the run)
 	cancelFromRun int        // the cancel spec applies to runs with at least this index (earlier runs are not cancelled)
+	sameSlice     bool       // prep hands back THE SAME slice object in every run ([]Result or []any), refilled in place with that run's items (a caller re-using its buffer)
 	ctxByRun      []int      // which context OBJECT each run receives (equal numbers: the same cancellable context again); only for scenarios whose last run alone is cancelled
 	feedback      bool       // repeated runs: the result slice post received becomes, AS IT IS, the items of the next run
 	cancel        cancelSpec // cancellation injection
@@ -211,6 +212,8 @@ type brHolder struct {
 	lastC, lastBudget int
 	prevResults       []flyt.Result // feedback mode: what post received in the previous run
 	ctxs              map[int]*core.Ctx
+	bufAny            []any // sameSlice mode: the one slice object prep returns in every run
+	bufRes            []flyt.Result
 	cur               *BR
 	nb                *flyt.BatchNodeBuilder
 	store             *flyt.SharedStore
@@ -239,7 +242,7 @@ func (sc *batchScn) scenario() Scenario {
 				scr = &cp
 			}
 			b = &BR{sc: scr, h: h, runIdx: r, payload: scr.payloads(), it: make([]itemState, scr.n), afterCancel: map[int]int{}}
-			if sc.feedback && r > 0 {
+			if (sc.feedback || sc.sameSlice) && r > 0 {
 				for i := range b.payload {
 					b.payload[i] = 1000*r + i // = what run r-1 produced for item i
 				}
@@ -426,6 +429,13 @@ func (b *BR) buildNode() (*flyt.BatchNodeBuilder, *flyt.SharedStore) {
 			return h.prevResults // the very slice the previous run handed to post
 		}
 		r := make([]flyt.Result, len(h.cur.payload))
+		if sc.sameSlice {
+			if cap(h.bufRes) < len(r) {
+				h.bufRes = make([]flyt.Result, len(r), len(r)+8)
+			}
+			h.bufRes = h.bufRes[:len(r)]
+			r = h.bufRes
+		}
 		for i, p := range h.cur.payload {
 			r[i] = flyt.NewResult(p)
 			if contains(sc.errItems, i) {
@@ -453,6 +463,13 @@ func (b *BR) buildNode() (*flyt.BatchNodeBuilder, *flyt.SharedStore) {
 			}
 			switch sc.shape {
 			case shAny:
+				if sc.sameSlice {
+					if cap(h.bufAny) < len(h.cur.payload) {
+						h.bufAny = make([]any, 0, len(h.cur.payload)+8)
+					}
+					h.bufAny = append(h.bufAny[:0], h.cur.payload...)
+					return h.bufAny, nil
+				}
 				return append([]any(nil), h.cur.payload...), nil
 			case shInts:
 				l := make([]int, len(h.cur.payload))
@@ -571,6 +588,9 @@ func (b *BR) onExec(ctx context.Context, v any, argIsErr bool) answer {
 	if i < 0 || i >= sc.n {
 		core.Problem("exec received %s which is not one of prep's items", descVal(v))
 		return answer{val: nil}
+	}
+	if !argIsErr && !sameValue(v, b.payload[i]) {
+		core.Problem("exec received %s; this run's prep produced %s at position %d (an item of an earlier run?)", descVal(v), descVal(b.payload[i]), i)
 	}
 	st := &b.it[i]
 	k := st.entries.Get()
